@@ -151,9 +151,28 @@ fn mutate_text(rng: &mut Rng, s: &str) -> String {
     let k = 1 + rng.below(3);
     for _ in 0..k {
         let i = rng.below(c.len());
-        match rng.below(5) {
+        match rng.below(6) {
             0 => {
                 c.remove(i);
+            }
+            5 => {
+                // flip the letter case of the word around i (keywords, function and tag names)
+                let mut a = i;
+                while a > 0 && c[a - 1].is_ascii_alphabetic() {
+                    a -= 1;
+                }
+                let mut b = i;
+                while b < c.len() && c[b].is_ascii_alphabetic() {
+                    b += 1;
+                }
+                let mode = rng.below(3);
+                for q in a..b {
+                    c[q] = match mode {
+                        0 => c[q].to_ascii_uppercase(),
+                        1 => if q == a { c[q].to_ascii_uppercase() } else { c[q] },
+                        _ => if (q - a) % 2 == 0 { c[q].to_ascii_uppercase() } else { c[q].to_ascii_lowercase() },
+                    };
+                }
             }
             1 => c.insert(i, *rng.pick(&specials)),
             2 => c[i] = *rng.pick(&specials),
@@ -236,6 +255,23 @@ pub fn inputs(tier: &str, seed: u64) -> Vec<(String, String)> {
         let base = css_seed[i % css_seed.len()];
         if i < css_seed.len() {
             v.push(("css".into(), base.to_string()));
+            v.push(("css".into(), base.to_ascii_uppercase()));
+            // each word of the seed upper-cased on its own
+            let b: Vec<char> = base.chars().collect();
+            let mut a = 0;
+            while a < b.len() {
+                if b[a].is_ascii_alphabetic() {
+                    let mut e = a;
+                    while e < b.len() && b[e].is_ascii_alphabetic() {
+                        e += 1;
+                    }
+                    let t: String = b[..a].iter().chain(b[a..e].iter().map(|c| c.to_ascii_uppercase()).collect::<Vec<_>>().iter()).chain(b[e..].iter()).collect();
+                    v.push(("css".into(), t));
+                    a = e;
+                } else {
+                    a += 1;
+                }
+            }
         }
         v.push(("css".into(), mutate_text(&mut rng, base)));
     }
